@@ -196,6 +196,10 @@ def exec_enum_trees(trace, ctx):
                         ctx.probe("atom_given_displacement_random")
                         if d is None:
                             ctx.probe("random_displacement_not_observed")
+                    elif (idx + moved) % 6 == 2:
+                        arr = np.asfortranarray(before)         # the same coordinates, column-major in memory
+                        out = move_mol_atom(arr, tb, atom_index=moved, displ=d.copy())
+                        ctx.probe("column_major_coordinates")
                     else:
                         out = move_mol_atom(arr, tb, atom_index=moved, displ=d.copy())
                 except Exception as e:
@@ -267,6 +271,9 @@ def exec_random_graph(trace, ctx):
                     ctx.fault("refused_move_call")
             before = pos.copy()
             arr = pos.copy()
+            if rep % 4 == 3:
+                arr = np.asfortranarray(pos)              # column-major (built column by column, or a transposed (3, n) array)
+                ctx.probe("column_major_coordinates")
             explicit = rng.random() < 0.4
             only_displ = (not explicit) and rng.random() < 0.3
             only_index = (not explicit) and (not only_displ) and rng.random() < 0.35
